@@ -495,7 +495,9 @@ Definition step_prim (s : st) : res :=
   | SKw KContinue => postfix c (prim_continue s)
   | SKw KReturn => postfix c (prim_return s)
   | SKw KThrow => postfix c (prim_throw s)
-  | SKw KTry => postfix c (bind (rec Block (next s)) (fun b s1 => rec (Catches (as_list b) []) s1))
+  | SKw KTry => postfix c (if is_lbrace (cur (next s))                       (* requireBlockStart("try") (fix 4afe5c3) *)
+                           then bind (rec Block (next s)) (fun b s1 => rec (Catches (as_list b) []) s1)
+                           else err (next s))
   | SKw KFunction => postfix c (rec PFunc s)
   | SQ | SOther => Unsup
   | _ => if missing_operand s c then err s else Ok ENil s      (* no parser for this token *)
@@ -753,15 +755,21 @@ Definition step_catches (body : list ast) (acc : list (list nat * ast * list ast
       if is_var (cur s2) then
         bind (rec Stmt s2) (fun v s3 =>
           if is_variable_node v then
-            if is_rp (cur s3) then bind (rec Block (next s3)) (fun b s4 => rec (Catches body ((types, v, as_list b) :: acc)) s4)
+            if is_rp (cur s3) && is_lbrace (cur (next s3))                    (* ')' then requireBlockStart("catch") *)
+            then bind (rec Block (next s3)) (fun b s4 => rec (Catches body ((types, v, as_list b) :: acc)) s4)
             else err s3
           else err s3)
-      else if is_rp (cur s2) then
+      else if is_rp (cur s2) && is_lbrace (cur (next s2)) then
         bind (rec Block (next s2)) (fun b s3 => rec (Catches body ((types, ENil, as_list b) :: acc)) s3)
       else err s2)
   else if is_kw KFinally (cur s) then
-    bind (rec Block (next s)) (fun b s1 => Ok (STry body (rev acc) (as_list b)) s1)
-  else Ok (STry body (rev acc) []) s.
+    if is_lbrace (cur (next s))                                               (* requireBlockStart("finally") *)
+    then bind (rec Block (next s)) (fun b s1 => Ok (STry body (rev acc) (as_list b)) s1)
+    else err (next s)
+  else match acc with
+       | [] => err s                                                          (* try without catch or finally *)
+       | _ => Ok (STry body (rev acc) []) s
+       end.
 
 Definition step_catchtypes (acc : list nat) (s : st) : res :=
   match cur s with
@@ -771,7 +779,7 @@ Definition step_catchtypes (acc : list nat) (s : st) : res :=
       | SBin OBor => rec (CatchTypes (n :: acc)) (next s1)
       | _ => Ok (EList (map EIdentStr (rev (n :: acc)))) s1
       end
-  | _ => Ok (EList (map EIdentStr (match acc with [] => [8] | _ => rev acc end))) s      (* none: "Exception" *)
+  | _ => err s                                  (* catch ($e), catch (), catch (A | $e): no type (fix 4afe5c3) *)
   end.
 
 Definition param_fin (v : nat) (acc : list ast) (d : ast) (s2 : st) : res :=
